@@ -99,6 +99,11 @@ fn make_router(c: &Counters) -> Router {
         })
         .unwrap();
     }
+    // two more registries whose prefixes are string prefixes (without a '/' boundary) of `/dev` and `/reg`
+    let reg_de = Arc::new(Registry::new());
+    reg_de.register_value("/v", json!("from-de")).unwrap();
+    let reg_re = Arc::new(Registry::new());
+    reg_re.register_value("/v", json!("from-re")).unwrap();
     let mk = |name: &'static str, c: &Counters| {
         let c = c.clone();
         move |v: Value| {
@@ -155,8 +160,14 @@ fn make_router(c: &Counters) -> Router {
             Ok(v.iter().rev().cloned().collect())
         })
         .with_registry("/reg", reg)
+        .with_registry("/de", reg_de)
+        .with_registry("/re", reg_re)
         .with_erased_handler("/custom", Arc::new(Custom(c.clone())))
         .with_json_blocking("/json_b", mk("/json_b", c))
+        .with_json_blocking("/slow_b", |_v| {
+            std::thread::sleep(Duration::from_millis(150));
+            Ok(json!("slow"))
+        })
         .with_json_ctx_blocking("/json_ctx_b", mkctx("/json_ctx_b", c))
         .with_typed_blocking::<TIn, TOut, _>("/typed_b", mkt("/typed_b", c))
         .with_typed_ctx_blocking::<TIn, TOut, _>("/typed_ctx_b", mktctx("/typed_ctx_b", c))
@@ -178,7 +189,7 @@ fn gen_request(r: &mut Rng, id: u64) -> ReqSpec {
     let paths: &[&[u8]] = &[
         b"/json", b"/json", b"/typed", b"/typed_beve", b"/json_ctx", b"/typed_ctx", b"/slice", b"/slice_ref", b"/reg/a", b"/reg/a/b",
         b"/reg/a/list/1", b"/reg/f", b"/reg/s", b"/reg/missing", b"/reg", b"/reg/a~1b", b"/custom", b"/json_b", b"/json_ctx_b", b"/typed_b",
-        b"/typed_ctx_b", b"/dev/gain", b"/dev/label", b"/dev/hello", b"/dev/add", b"/dev", b"/dev/nope", b"/nope", b"", b"/", b"json",
+        b"/typed_ctx_b", b"/de/v", b"/de", b"/dex", b"/re/v", b"/regx", b"/devx", b"/dev/gain", b"/dev/label", b"/dev/hello", b"/dev/add", b"/dev", b"/dev/nope", b"/nope", b"", b"/", b"json",
         b"/json/", b"/jsonx", b"/\xff\xfe", b"\xc3\x28", b"/json\x00",
     ];
     let query = r.pick(paths).to_vec();
@@ -289,7 +300,70 @@ fn start_servers() -> Servers {
         });
         eps.push(Endpoint { name, kind: Kind::Ws, addr, counters: c });
     }
+    // `wsb`: a WebSocket server on a runtime whose blocking pool has ONE thread (off-reader handlers queue up)
+    {
+        let c = Counters::default();
+        let r = make_router(&c);
+        let (tx, rx) = std::sync::mpsc::channel();
+        std::thread::spawn(move || {
+            let rt2 = tokio::runtime::Builder::new_multi_thread().worker_threads(2).max_blocking_threads(1).enable_all().build().unwrap();
+            rt2.block_on(async move {
+                let l = tokio::net::TcpListener::bind("127.0.0.1:0").await.unwrap();
+                tx.send(l.local_addr().unwrap()).unwrap();
+                let _ = repe::websocket_server::WebSocketServer::new(r).serve_listener(l, "/repe").await;
+            });
+        });
+        let addr = rx.recv().unwrap();
+        eps.push(Endpoint { name: "wsb", kind: Kind::Ws, addr, counters: c });
+    }
     Servers { eps, rt }
+}
+
+/// Busy-pool scenario: one slow off-reader request occupies the only blocking thread, K notifies to a blocking
+/// route queue up behind it, and the client closes at once. Every dispatched handler must still be invoked
+/// exactly once (the property's "a dispatched request's handler is invoked exactly once").
+fn busy_pool_close(out: &mut Out, sv: &Servers, k: usize, seqno: usize) {
+    use tokio_tungstenite::tungstenite::Message as WsMsg;
+    let ep = sv.eps.iter().find(|e| e.name == "wsb").unwrap();
+    let key_n = hex(b"/json_b");
+    let key_s = hex(b"/slow_b");
+    let get = |key: &str| ep.counters.started.lock().unwrap().get(key).copied().unwrap_or(0);
+    let (n0, s0) = (get(&key_n), get(&key_s));
+    let url = format!("ws://{}/repe", ep.addr);
+    let ok = sv.rt.block_on(async {
+        let Ok((mut ws, _)) = tokio_tungstenite::connect_async(&url).await else { return false };
+        let slow = RawFrame::request(900_000 + seqno as u64, false, 1, b"/slow_b", 2, b"null").to_vec();
+        if ws.send(WsMsg::Binary(slow)).await.is_err() { return false; }
+        for i in 0..k {
+            let f = RawFrame::request(910_000 + i as u64, true, 1, b"/json_b", 2, b"{\"n\":1}").to_vec();
+            if ws.send(WsMsg::Binary(f)).await.is_err() { return false; }
+        }
+        // a sentinel the reader answers inline proves every earlier frame was read and dispatched
+        if ws.send(WsMsg::Binary(sentinel(S1))).await.is_err() { return false; }
+        let t = Instant::now();
+        while t.elapsed() < Duration::from_secs(10) {
+            match tokio::time::timeout(Duration::from_millis(200), ws.next()).await {
+                Ok(Some(Ok(WsMsg::Binary(b)))) => if RawHeader::parse(&b).map(|h| h.id == S1).unwrap_or(false) { break },
+                Ok(None) | Ok(Some(Err(_))) => return false,
+                _ => {}
+            }
+        }
+        drop(ws); // close abruptly while the notifies are still queued behind the slow handler
+        true
+    });
+    let ops = vec![format!("busy {} {}", seqno, k)];
+    if !ok { out.oracle_fail("dispatch.wsb.connection", "busy-pool scenario: connection failed before all frames were dispatched", &ops); return; }
+    let t = Instant::now();
+    loop {
+        let (n, s) = (get(&key_n) - n0, get(&key_s) - s0);
+        if n == k as u64 && s == 1 { out.count("dispatch.busy_pool.ok"); break; }
+        if n > k as u64 || s > 1 { out.oracle_fail("dispatch.wsb.handler_invoked_twice", &format!("{} notifies / {} slow invoked for {} / 1 dispatched", n, s, k), &ops); break; }
+        if t.elapsed() > Duration::from_secs(15) {
+            out.oracle_fail("dispatch.wsb.dispatched_handler_not_invoked", &format!("after the client closed, only {} of {} dispatched notify handlers (and {} of 1 request handler) were ever invoked", n, k, s), &ops);
+            break;
+        }
+        std::thread::sleep(Duration::from_millis(20));
+    }
 }
 
 /// What one transport returned for a sequence.
@@ -458,6 +532,14 @@ fn run_ws(sv: &Servers, ep: &Endpoint, reqs: &[ReqSpec], expect_ids: &[u64], exp
 // ------------------------------------------------------------------------------------------
 // one sequence
 // ------------------------------------------------------------------------------------------
+/// The route table as this harness registered it, and the lookup rule the property states (exact path wins;
+/// a mount gets its prefix itself or an extension at a '/' boundary) — independent of `Router::get`.
+const EXACT: &[&str] = &["/json", "/__end", "/typed", "/typed_beve", "/json_ctx", "/typed_ctx", "/slice", "/slice_ref", "/custom", "/json_b", "/slow_b", "/json_ctx_b", "/typed_b", "/typed_ctx_b"];
+const MOUNTS: &[&str] = &["/reg", "/de", "/re", "/dev"];
+fn expected_found(path: &str) -> bool {
+    EXACT.contains(&path) || MOUNTS.iter().any(|m| path == *m || (path.starts_with(m) && path.as_bytes().get(m.len()) == Some(&b'/')))
+}
+
 fn utf8(q: &[u8]) -> bool {
     std::str::from_utf8(q).is_ok()
 }
@@ -475,6 +557,12 @@ fn run_sequence(out: &mut Out, sv: &Servers, probe: &Router, seqno: usize, reqs:
         let path_ok = r.h.version == 1 && r.h.query_format == 1 && utf8(&r.query);
         let handler = if utf8(&r.query) { probe.get(std::str::from_utf8(&r.query).unwrap()) } else { None };
         let found = handler.is_some();
+        if utf8(&r.query) {
+            let p = std::str::from_utf8(&r.query).unwrap();
+            if expected_found(p) != found {
+                out.oracle_fail("dispatch.lookup.found_mismatch", &format!("Router::get({:?}) is {} but the registered routes/mounts say {}", p, found, expected_found(p)), &[format!("lookup {}", hex(&r.query))]);
+            }
+        }
         let off = handler.as_ref().map(|h| h.execution() == repe::Execution::OffReader).unwrap_or(false);
         let (hv, ho) = match (&handler, path_ok) {
             (Some(hd), true) => {
@@ -517,6 +605,7 @@ fn run_sequence(out: &mut Out, sv: &Servers, probe: &Router, seqno: usize, reqs:
     let mut runs: Vec<(&'static str, Kind, TransportRun, BTreeMap<String, u64>)> = Vec::new();
     for ep in &sv.eps {
         // the single-slot WebSocket server is only interesting under pressure (and slow otherwise)
+        if ep.name == "wsb" { continue; }
         if ep.name == "wsp" && !pressure { continue; }
         if ep.name == "ws" && pressure { continue; }
         let base = snap(&ep.counters);
@@ -659,6 +748,10 @@ fn main() {
             let pressure = s % 8 == 7;
             let reqs = if pressure { gen_pressure(&mut rng, (s as u64) * 1000) } else { reqs };
             run_sequence(&mut out, &sv, &probe, s, &reqs, pressure);
+            if s % 16 == 5 {
+                let k = rng.range(3, 8) as usize;
+                busy_pool_close(&mut out, &sv, k, s);
+            }
         }
     }
     out.finish();
